@@ -1,9 +1,18 @@
 import JL.Lemmas.Monad
+import JL.Lemmas.C14
 /-!
 # C14 — `all` / `some` / `none` are bounded quantifiers with short-circuit; `none` = not `some`
+
+The model writes `array::all` / `array::some` the way the code does: folds with an early-exit state
+(`quantData` over data items, `runQuantLit` over the element expressions of a literal array). The theorems
+say that these are the bounded quantifiers `allSpec` / `someSpec` of `JL/Spec/C14.lean` with first-decider
+semantics, as equalities in the full monad `M` (boolean, error/panic outcome AND log lines), and that the
+three operators are `quantSem` of the same file.
 -/
 namespace JL.Props.C14
-open JL Json
+open JL Json JL.Lemmas.C14
+
+/-! ## the collection: normalisation, empty ⇒ false, anything else ⇒ error (kept from the first cut) -/
 
 /-- empty and null collections make `all` and `some` false, before the predicate is even parsed -/
 theorem empty_false (isAll predOk : Bool) (p : Json → M Json) :
@@ -18,15 +27,329 @@ theorem other_error (isAll predOk : Bool) (p : Json → M Json) (c : Json)
 
 /-- short-circuit: once the state is decided (differs from the initial one) no further element is evaluated -/
 theorem short_circuit (isAll : Bool) (p : Json → M Json) (xs : List Json) :
-    quantData isAll p xs (!isAll) = ⟨[], .ok (!isAll)⟩ := by
-  induction xs with
-  | nil => rfl
-  | cons x xs ih => cases isAll <;> simp_all [quantData]
+    quantData isAll p xs (!isAll) = ⟨[], .ok (!isAll)⟩ := quantData_decided isAll p xs
 
 /-- a string is taken character by character -/
 theorem string_chars (s : Str) : quantItems (.str s) = some (s.map (fun c => .str [c])) := rfl
 
+/-- the code's normalisation of the collection is the specification's -/
+theorem items_spec (c : Json) : quantItems c = items c := quantItems_eq_items c
+
+/-! ## the folds are the bounded quantifiers -/
+
+/-- `all` over data items: `∀` with first-falsy exit -/
+theorem quantData_all_spec (p : Json → M Json) (xs : List Json) : quantData true p xs true = allSpec p xs :=
+  quantData_all p xs
+
+/-- `some` over data items: `∃` with first-truthy exit -/
+theorem quantData_some_spec (p : Json → M Json) (xs : List Json) : quantData false p xs false = someSpec p xs :=
+  quantData_some p xs
+
+/-- `all` over the element expressions of a literal array: each element is parsed and evaluated against the
+outer data only when reached, then handed to the predicate -/
+theorem runQuantLit_all_spec (p : Json → M Json) (d : Json) (xs : List Json) :
+    runQuantLit true xs p d true = allSpec (fun e => do let v ← evElem d e; p v) xs := runQuantLit_all p d xs
+
+theorem runQuantLit_some_spec (p : Json → M Json) (d : Json) (xs : List Json) :
+    runQuantLit false xs p d false = someSpec (fun e => do let v ← evElem d e; p v) xs := runQuantLit_some p d xs
+
+/-- **literal_elems**: the unfolding of the fold over a literal array — the head element is parsed (`check`),
+evaluated against the OUTER data `d`, its value handed to the predicate; the tail is touched only if the head
+did not decide (`isAll = true`: `all`, `isAll = false`: `some`) -/
+theorem literal_elems (isAll : Bool) (p : Json → M Json) (d x : Json) (xs : List Json) :
+    runQuantLit isAll (x :: xs) p d isAll =
+      (do let v ← evElem d x
+          let r ← p v
+          if truthy r = isAll then runQuantLit isAll xs p d isAll else pure (!isAll)) :=
+  runQuantLit_step isAll p d x xs
+
+/-- after the decider the literal fold neither parses nor evaluates anything -/
+theorem literal_decided (isAll : Bool) (p : Json → M Json) (d : Json) (xs : List Json) :
+    runQuantLit isAll xs p d (!isAll) = ⟨[], .ok (!isAll)⟩ := runQuantLit_decided isAll p d xs
+
+/-- a collection that is a value (computed, or a non-array literal): its elements are DATA — they occur only as
+arguments of the predicate closure, never as arguments of `check`/`run` in rule position (see `overValue`) -/
+theorem quantValue_all_spec (coll p : Json) :
+    quantValue true coll (check p) (fun x => run p x) = overValue allSpec coll p := quantValue_all coll p
+
+theorem quantValue_some_spec (coll p : Json) :
+    quantValue false coll (check p) (fun x => run p x) = overValue someSpec coll p := quantValue_some coll p
+
+/-! ## the operators -/
+
+/-- **all_spec** (evaluation phase) -/
+theorem all_spec (c p d : Json) (rest : List Json) :
+    run (.obj [("all".toList, .arr (c :: p :: rest))]) d = quantSem allSpec c p d := by
+  rw [run_all, quantBody_all]
+
+/-- **some_spec** (evaluation phase) -/
+theorem some_spec (c p d : Json) (rest : List Json) :
+    run (.obj [("some".toList, .arr (c :: p :: rest))]) d = quantSem someSpec c p d := by
+  rw [run_some, quantBody_some]
+
+/-- **none_not_some**, as the code has it: `none` runs `some` (same errors, same log lines) and negates -/
+theorem none_not_some_raw (c p d : Json) (rest : List Json) :
+    run (.obj [("none".toList, .arr (c :: p :: rest))]) d = run (.obj [("some".toList, .arr (c :: p :: rest))]) d >>= negate := by
+  rw [run_none, run_some]
+
+/-- whatever `some` (and `all`) produce is a boolean … -/
+theorem some_is_bool (c p d : Json) (rest l : List Json) (v : Json)
+    (h : run (.obj [("some".toList, .arr (c :: p :: rest))]) d = ⟨l, .ok v⟩) : ∃ b, v = .bool b := by
+  rw [some_spec] at h; exact boolOut_quantSem someSpec c p d l v h
+
+theorem all_is_bool (c p d : Json) (rest l : List Json) (v : Json)
+    (h : run (.obj [("all".toList, .arr (c :: p :: rest))]) d = ⟨l, .ok v⟩) : ∃ b, v = .bool b := by
+  rw [all_spec] at h; exact boolOut_quantSem allSpec c p d l v h
+
+/-- … so **none_not_some**: `none` is `some` with the boolean negated, errors and log lines included -/
+theorem none_not_some (c p d : Json) :
+    run (.obj [("none".toList, .arr [c, p])]) d =
+      run (.obj [("some".toList, .arr [c, p])]) d >>= fun v => pure (.bool (!truthy v)) := by
+  rw [none_not_some_raw, some_spec]
+  exact negate_of_boolOut _ (boolOut_quantSem someSpec c p d)
+
+theorem none_spec (c p d : Json) (rest : List Json) :
+    run (.obj [("none".toList, .arr (c :: p :: rest))]) d = quantSem someSpec c p d >>= fun v => pure (.bool (!truthy v)) := by
+  rw [none_not_some_raw, some_spec]
+  exact negate_of_boolOut _ (boolOut_quantSem someSpec c p d)
+
+/-- at the public entry point: the parse demands exactly two operands and nothing else (the operands stay raw) -/
+theorem all_apply (c p d : Json) : apply (.obj [("all".toList, .arr [c, p])]) d = quantSem allSpec c p d := by
+  unfold apply; rw [check_quant _ (.inl rfl)]; exact all_spec c p d []
+
+theorem some_apply (c p d : Json) : apply (.obj [("some".toList, .arr [c, p])]) d = quantSem someSpec c p d := by
+  unfold apply; rw [check_quant _ (.inr (.inl rfl))]; exact some_spec c p d []
+
+theorem none_apply (c p d : Json) :
+    apply (.obj [("none".toList, .arr [c, p])]) d = apply (.obj [("some".toList, .arr [c, p])]) d >>= fun v => pure (.bool (!truthy v)) := by
+  rw [some_apply]
+  unfold apply; rw [check_quant _ (.inr (.inr rfl))]; exact none_spec c p d []
+
+/-- any other operand count is a parse error (never a panic at the public entry point) -/
+theorem quant_arity (k : Str) (hk : k = "all".toList ∨ k = "some".toList ∨ k = "none".toList) (xs : List Json) (d : Json)
+    (hn : xs.length ≠ 2) : apply (.obj [(k, .arr xs)]) d = ⟨[], .err⟩ := by
+  unfold apply; rw [check_quant k hk]; simp [hn]
+
+/-! ### readable corollaries of `quantSem` -/
+
+/-- an empty literal array ⇒ `false`, for ANY second operand (it is not even parsed) -/
+theorem empty_literal_false (p d : Json) :
+    apply (.obj [("all".toList, .arr [.arr [], p])]) d = ⟨[], .ok (.bool false)⟩ ∧
+    apply (.obj [("some".toList, .arr [.arr [], p])]) d = ⟨[], .ok (.bool false)⟩ ∧
+    apply (.obj [("none".toList, .arr [.arr [], p])]) d = ⟨[], .ok (.bool true)⟩ := by
+  refine ⟨?_, ?_, ?_⟩
+  · rw [all_apply]; rfl
+  · rw [some_apply]; rfl
+  · rw [none_apply, some_apply]; rfl
+
+/-- literal `null` and literal `""` ⇒ `false`, for ANY second operand -/
+theorem null_literal_false (p d : Json) :
+    apply (.obj [("all".toList, .arr [.null, p])]) d = ⟨[], .ok (.bool false)⟩ ∧
+    apply (.obj [("some".toList, .arr [.null, p])]) d = ⟨[], .ok (.bool false)⟩ ∧
+    apply (.obj [("all".toList, .arr [.str [], p])]) d = ⟨[], .ok (.bool false)⟩ ∧
+    apply (.obj [("some".toList, .arr [.str [], p])]) d = ⟨[], .ok (.bool false)⟩ := by
+  refine ⟨?_, ?_, ?_, ?_⟩ <;> first | rw [all_apply] | rw [some_apply]
+  all_goals rfl
+
+/-- literal booleans and numbers are not collections: error, for ANY second operand -/
+theorem other_literal_error (p d : Json) (c : Json) (hc : (∃ b, c = .bool b) ∨ (∃ n, c = .num n)) :
+    apply (.obj [("all".toList, .arr [c, p])]) d = ⟨[], .err⟩ ∧ apply (.obj [("some".toList, .arr [c, p])]) d = ⟨[], .err⟩ ∧
+    apply (.obj [("none".toList, .arr [c, p])]) d = ⟨[], .err⟩ := by
+  rw [none_apply, all_apply, some_apply]
+  rcases hc with ⟨b, rfl⟩ | ⟨n, rfl⟩ <;> exact ⟨rfl, rfl, rfl⟩
+
+/-- a literal string: the predicate ranges over its characters as one-character strings -/
+theorem string_literal (c : Char) (s : Str) (p d : Json) (hp : check p = true) :
+    apply (.obj [("all".toList, .arr [.str (c :: s), p])]) d =
+      (do let b ← allSpec (fun e => run p e) ((c :: s).map fun ch => .str [ch]); pure (.bool b)) := by
+  rw [all_apply]; simp [quantSem, overValue, items, hp]
+
+/-- a non-empty literal array: the quantifier ranges over the element EXPRESSIONS, each evaluated against the
+outer data `d` when (and only when) reached -/
+theorem literal_array (x : Json) (xs : List Json) (p d : Json) (hp : check p = true) :
+    apply (.obj [("all".toList, .arr [.arr (x :: xs), p])]) d =
+      (do let b ← allSpec (fun e => do let v ← evElem d e; run p v) (x :: xs); pure (.bool b)) ∧
+    apply (.obj [("some".toList, .arr [.arr (x :: xs), p])]) d =
+      (do let b ← someSpec (fun e => do let v ← evElem d e; run p v) (x :: xs); pure (.bool b)) := by
+  rw [all_apply, some_apply]; simp [quantSem_arr_cons, hp]
+
+/-- **computed collections are data**: an object first operand is a rule; what it yields is handed to `overValue`,
+where the elements are only ever arguments of the predicate -/
+theorem computed_is_data (kvs : List (Str × Json)) (p d : Json) :
+    apply (.obj [("all".toList, .arr [.obj kvs, p])]) d = (do let cv ← evElem d (.obj kvs); overValue allSpec cv p) ∧
+    apply (.obj [("some".toList, .arr [.obj kvs, p])]) d = (do let cv ← evElem d (.obj kvs); overValue someSpec cv p) := by
+  rw [all_apply, some_apply]; exact ⟨rfl, rfl⟩
+
+/-! ## duality -/
+
+/-- **duality** of the quantifiers themselves (unconditional; errors and log lines included): `∀ p = ¬ ∃ ¬p` -/
+theorem duality_spec (p : Json → M Json) (xs : List Json) :
+    allSpec p xs = someSpec (notP p) xs >>= fun b => pure (!b) := allSpec_eq_not_some p xs
+
+theorem duality_spec' (p : Json → M Json) (xs : List Json) :
+    someSpec p xs = allSpec (notP p) xs >>= fun b => pure (!b) := someSpec_eq_not_all p xs
+
+/-- the rule `{"!": [p]}` computes the negated predicate and parses iff `p` does -/
+theorem notRule_spec (p x : Json) : run (notRule p) x = notP (fun e => run p e) x ∧ check (notRule p) = check p :=
+  ⟨run_notRule p x, check_notRule p⟩
+
+/-- **duality** of the operators: on a collection that does not turn out empty,
+`{"all": [c, p]}` = `{"none": [c, {"!": [p]}]}` — values, errors, log lines -/
+theorem duality (c p d : Json) (h : ¬ CollEmpty c d) :
+    apply (.obj [("all".toList, .arr [c, p])]) d = apply (.obj [("none".toList, .arr [c, notRule p])]) d := by
+  rw [none_apply, all_apply, some_apply, quantSem_duality c p d h]
+  exact negate_of_boolOut _ (boolOut_quantSem someSpec c (notRule p) d)
+
+/-- … and on a collection that turns out empty the convention `all = some = false` breaks it: `all` is `false`
+where `none` of anything is `true` (same log lines) -/
+theorem duality_empty (c p p' d : Json) (h : CollEmpty c d) :
+    ∃ l, apply (.obj [("all".toList, .arr [c, p])]) d = ⟨l, .ok (.bool false)⟩ ∧
+         apply (.obj [("some".toList, .arr [c, p'])]) d = ⟨l, .ok (.bool false)⟩ ∧
+         apply (.obj [("none".toList, .arr [c, p'])]) d = ⟨l, .ok (.bool true)⟩ := by
+  obtain ⟨l, hl⟩ := quantSem_empty c d h
+  refine ⟨l, ?_, ?_, ?_⟩
+  · rw [all_apply, hl]
+  · rw [some_apply, hl]
+  · rw [none_apply, some_apply, hl]; simp [truthy]
+
+/-! ## short circuit: elements after the decider are neither checked nor evaluated -/
+
+/-- `all`: whatever stands after the first element on which the predicate is falsy is irrelevant
+(`xs` arbitrary: if an earlier element already decides or fails, the equality holds all the more) -/
+theorem short_circuit_all (p : Json → M Json) (xs : List Json) (x : Json) (ys ys' l : List Json) (r : Json)
+    (hx : p x = ⟨l, .ok r⟩) (hr : truthy r = false) :
+    allSpec p (xs ++ x :: ys) = allSpec p (xs ++ x :: ys') := by
+  apply allSpec_prefix
+  rw [allSpec_decided p x ys l r hx hr, allSpec_decided p x ys' l r hx hr]
+
+/-- `some`: whatever stands after the first element on which the predicate is truthy is irrelevant -/
+theorem short_circuit_some (p : Json → M Json) (xs : List Json) (x : Json) (ys ys' l : List Json) (r : Json)
+    (hx : p x = ⟨l, .ok r⟩) (hr : truthy r = true) :
+    someSpec p (xs ++ x :: ys) = someSpec p (xs ++ x :: ys') := by
+  apply someSpec_prefix
+  rw [someSpec_decided p x ys l r hx hr, someSpec_decided p x ys' l r hx hr]
+
+/-- whatever stands after an element on which the predicate fails is irrelevant -/
+theorem short_circuit_failed (p : Json → M Json) (xs : List Json) (x : Json) (ys ys' : List Json)
+    (hx : ∀ v, (p x).out ≠ .ok v) :
+    allSpec p (xs ++ x :: ys) = allSpec p (xs ++ x :: ys') ∧ someSpec p (xs ++ x :: ys) = someSpec p (xs ++ x :: ys') :=
+  ⟨allSpec_prefix _ _ _ (allSpec_failed p x ys ys' hx) xs, someSpec_prefix _ _ _ (someSpec_failed p x ys ys' hx) xs⟩
+
+/-- closed form: every element in front answers truthy and `x` answers falsy ⇒ `all` is `false`, having run the
+predicate exactly on the elements up to `x` -/
+theorem all_first_falsy (p : Json → M Json) (xs : List Json) (x : Json) (ys l : List Json) (r : Json)
+    (hxs : ∀ y ∈ xs, ∃ l v, p y = ⟨l, .ok v⟩ ∧ truthy v = true) (hx : p x = ⟨l, .ok r⟩) (hr : truthy r = false) :
+    ∃ l', allSpec p (xs ++ x :: ys) = ⟨l' ++ l, .ok false⟩ := by
+  obtain ⟨l', h⟩ := allSpec_append_truthy p (x :: ys) xs hxs
+  exact ⟨l', by rw [h, allSpec_decided p x ys l r hx hr]⟩
+
+/-- **short_circuit** for a literal array at the public entry point: the element expressions after the decider
+can be replaced by ANY rules (unparsable, erroring, logging) -/
+theorem short_circuit_literal_all (p d : Json) (xs : List Json) (x : Json) (ys ys' l : List Json) (r : Json)
+    (hx : (do let v ← evElem d x; run p v) = ⟨l, .ok r⟩) (hr : truthy r = false) :
+    apply (.obj [("all".toList, .arr [.arr (xs ++ x :: ys), p])]) d = apply (.obj [("all".toList, .arr [.arr (xs ++ x :: ys'), p])]) d := by
+  rw [all_apply, all_apply, quantSem_arr_ne _ _ (by simp), quantSem_arr_ne _ _ (by simp)]
+  rw [short_circuit_all (fun e => do let v ← evElem d e; run p v) xs x ys ys' l r hx hr]
+
+theorem short_circuit_literal_some (p d : Json) (xs : List Json) (x : Json) (ys ys' l : List Json) (r : Json)
+    (hx : (do let v ← evElem d x; run p v) = ⟨l, .ok r⟩) (hr : truthy r = true) :
+    apply (.obj [("some".toList, .arr [.arr (xs ++ x :: ys), p])]) d = apply (.obj [("some".toList, .arr [.arr (xs ++ x :: ys'), p])]) d ∧
+    apply (.obj [("none".toList, .arr [.arr (xs ++ x :: ys), p])]) d = apply (.obj [("none".toList, .arr [.arr (xs ++ x :: ys'), p])]) d := by
+  have h : apply (.obj [("some".toList, .arr [.arr (xs ++ x :: ys), p])]) d = apply (.obj [("some".toList, .arr [.arr (xs ++ x :: ys'), p])]) d := by
+    rw [some_apply, some_apply, quantSem_arr_ne _ _ (by simp), quantSem_arr_ne _ _ (by simp)]
+    rw [short_circuit_some (fun e => do let v ← evElem d e; run p v) xs x ys ys' l r hx hr]
+  exact ⟨h, by rw [none_apply, none_apply, h]⟩
+
+/-! ## non-vacuity
+
+`n k` is the number literal, `v s` the rule `{"var": s}`, `bad` the unparsable `{"==": []}`, `boom` the rule
+`{"+": ["x"]}` that parses and fails, `logv` the predicate `{"log": [{"var": ""}]}` (truthy iff the element is, and
+prints it). -/
+
+private def n (k : Nat) : Json := .num (.pos k)
+private def v (s : String) : Json := .obj [("var".toList, .str s.toList)]
+private def bad : Json := .obj [("==".toList, .arr [])]
+private def boom : Json := .obj [("+".toList, .arr [.str "x".toList])]
+private def logv : Json := .obj [("log".toList, .arr [v ""])]
+private def dA : Json := .obj [("a".toList, n 1), ("e".toList, .arr []), ("l".toList, .arr [.obj [("var".toList, .str "x".toList)]]), ("x".toList, n 0)]
+
+-- computed collection: its operation-shaped element `{"var":"x"}` is DATA (truthy object), not re-interpreted (kept)
 example : apply (.obj [("all".toList, .arr [.obj [("var".toList, .str "l".toList)], .obj [("var".toList, .str "".toList)]])])
     (.obj [("l".toList, .arr [.obj [("var".toList, .str "x".toList)]]), ("x".toList, .num (.pos 0))]) = ⟨[], .ok (.bool true)⟩ := by decide +kernel
+-- … whereas the same element written inside a LITERAL array is an expression over the outer data (x = 0: falsy)
+example : apply (.obj [("all".toList, .arr [.arr [v "x"], v ""])]) dA = ⟨[], .ok (.bool false)⟩ := by decide +kernel
+
+-- the poisons are poisonous when reached
+example : apply bad .null = ⟨[], .err⟩ ∧ apply boom .null = ⟨[], .err⟩ ∧ check bad = false ∧ check boom = true := by decide +kernel
+
+-- `short_circuit_literal_all`: hypothesis (the element `0` is the decider) and an instance with both poisons behind it;
+-- the first element is an expression over the outer data (`a` = 1), and the predicate's log lines stop at the decider
+example : (do let x ← evElem dA (n 0); run logv x) = ⟨[n 0], .ok (n 0)⟩ ∧ truthy (n 0) = false := by decide +kernel
+example : apply (.obj [("all".toList, .arr [.arr [v "a", n 0, bad, boom, n 5], logv])]) dA = ⟨[n 1, n 0], .ok (.bool false)⟩ := by
+  decide +kernel
+-- a poison in FRONT of the decider does fire
+example : apply (.obj [("all".toList, .arr [.arr [v "a", bad, n 0], logv])]) dA = ⟨[n 1], .err⟩ := by decide +kernel
+-- `short_circuit_literal_some` + `none_not_some`: same run, negated
+example : (do let x ← evElem dA (v "a"); run logv x) = ⟨[n 1], .ok (n 1)⟩ ∧ truthy (n 1) = true := by decide +kernel
+example : apply (.obj [("some".toList, .arr [.arr [n 0, v "a", bad, boom], logv])]) dA = ⟨[n 0, n 1], .ok (.bool true)⟩ ∧
+          apply (.obj [("none".toList, .arr [.arr [n 0, v "a", bad, boom], logv])]) dA = ⟨[n 0, n 1], .ok (.bool false)⟩ := by
+  decide +kernel
+-- `none` of a failing `some` fails the same way, with the same lines
+example : apply (.obj [("some".toList, .arr [.arr [n 0, boom, n 1], logv])]) dA = ⟨[n 0], .err⟩ ∧
+          apply (.obj [("none".toList, .arr [.arr [n 0, boom, n 1], logv])]) dA = ⟨[n 0], .err⟩ := by decide +kernel
+-- all elements pass
+example : apply (.obj [("all".toList, .arr [.arr [n 1, n 2, n 3], logv])]) dA = ⟨[n 1, n 2, n 3], .ok (.bool true)⟩ := by decide +kernel
+
+-- `short_circuit_all` / `short_circuit_some` / `all_first_falsy` on data: hypotheses met by a concrete closure
+example : (fun e => run logv e) (n 0) = ⟨[n 0], .ok (n 0)⟩ ∧ truthy (n 0) = false ∧
+    (∀ y ∈ [n 4, n 5], ∃ l r, (fun e => run logv e) y = ⟨l, .ok r⟩ ∧ truthy r = true) := by
+  refine ⟨by decide +kernel, by decide +kernel, ?_⟩
+  intro y hy
+  simp only [List.mem_cons, List.not_mem_nil, or_false] at hy
+  rcases hy with rfl | rfl
+  · exact ⟨[n 4], n 4, by decide +kernel, by decide +kernel⟩
+  · exact ⟨[n 5], n 5, by decide +kernel, by decide +kernel⟩
+example : allSpec (fun e => run logv e) [n 4, n 5, n 0, bad, boom] = ⟨[n 4, n 5, n 0], .ok false⟩ := by decide +kernel
+-- `short_circuit_failed`: hypothesis
+example : ∀ w, ((fun e => run boom e) (n 1)).out ≠ .ok w := by
+  have h : (run boom (n 1)).out = .err := by decide +kernel
+  intro w; rw [h]; exact fun h => nomatch h
+
+-- strings: characters as one-character strings (incl. a non-ASCII one); hypothesis of `string_literal`
+example : check (.obj [("==".toList, .arr [v "", .str "é".toList])]) = true := by decide +kernel
+example : apply (.obj [("some".toList, .arr [.str "aé".toList, .obj [("==".toList, .arr [v "", .str "é".toList])]])]) .null = ⟨[], .ok (.bool true)⟩ ∧
+          apply (.obj [("all".toList, .arr [.str "aé".toList, .obj [("==".toList, .arr [v "", .str "é".toList])]])]) .null = ⟨[], .ok (.bool false)⟩ ∧
+          apply (.obj [("all".toList, .arr [.str "aé".toList, logv])]) .null = ⟨[.str "a".toList, .str "é".toList], .ok (.bool true)⟩ := by
+  decide +kernel
+-- hypothesis of `literal_array`
+example : check logv = true := by decide +kernel
+
+-- empty / null before the predicate is parsed (unparsable predicate!), computed empty, non-collections
+example : apply (.obj [("all".toList, .arr [.arr [], bad])]) dA = ⟨[], .ok (.bool false)⟩ ∧
+          apply (.obj [("some".toList, .arr [v "e", bad])]) dA = ⟨[], .ok (.bool false)⟩ ∧
+          apply (.obj [("none".toList, .arr [v "nope", bad])]) dA = ⟨[], .ok (.bool true)⟩ ∧
+          apply (.obj [("all".toList, .arr [v "a", logv])]) dA = ⟨[], .err⟩ ∧
+          apply (.obj [("all".toList, .arr [.bool true, logv])]) dA = ⟨[], .err⟩ ∧
+          apply (.obj [("all".toList, .arr [.arr [n 1], bad])]) dA = ⟨[], .err⟩ := by decide +kernel
+-- arity
+example : apply (.obj [("all".toList, .arr [.arr [n 1]])]) dA = ⟨[], .err⟩ ∧ apply (.obj [("none".toList, .arr [.arr [n 1], logv, logv])]) dA = ⟨[], .err⟩ := by
+  decide +kernel
+
+-- `duality`: hypothesis on a literal and on a computed collection, and an instance with log lines
+example : ¬ CollEmpty (.arr [n 1, n 0]) dA := by simp [CollEmpty]
+example : ¬ CollEmpty (v "l") dA := by
+  rintro ⟨l, cv, h, hi⟩
+  have h' : evElem dA (v "l") = ⟨[], .ok (.arr [.obj [("var".toList, .str "x".toList)]])⟩ := by decide +kernel
+  have h := h'.symm.trans h
+  injection h with h1 h2; injection h2 with h3; subst h3
+  simp [items] at hi
+example : apply (.obj [("all".toList, .arr [.arr [n 1, n 0, bad], logv])]) dA = ⟨[n 1, n 0], .ok (.bool false)⟩ ∧
+          apply (.obj [("none".toList, .arr [.arr [n 1, n 0, bad], notRule logv])]) dA = ⟨[n 1, n 0], .ok (.bool false)⟩ := by
+  decide +kernel
+-- `duality_empty`: hypothesis on a literal and on a computed collection, and the instance where duality breaks
+example : CollEmpty (.arr []) dA := rfl
+example : CollEmpty (v "e") dA := ⟨[], .arr [], by decide +kernel, rfl⟩
+example : apply (.obj [("all".toList, .arr [v "e", logv])]) dA = ⟨[], .ok (.bool false)⟩ ∧
+          apply (.obj [("none".toList, .arr [v "e", notRule logv])]) dA = ⟨[], .ok (.bool true)⟩ := by decide +kernel
 
 end JL.Props.C14
